@@ -159,6 +159,23 @@ pub fn gencfg(prop: &str, tier: &str, rng: &mut Rng) -> GenCfg {
             g.allow_set = true;
             g.shapes = vec![Shape::Plain, Shape::AtThreshold, Shape::AtThreshold, Shape::Tiny, Shape::Tiny, Shape::Tree, Shape::AlmostTree, Shape::AlmostTree, Shape::TreeAtThreshold, Shape::Unallocated, Shape::Unallocated];
         }
+        "C14" if rng.chance(1, 2) => {
+            // growth side: inserting programs whose key universe bounds the entry count
+            g.mix = Mix::zero();
+            g.mix.insert = 6;
+            g.mix.try_insert = 2;
+            g.mix.remove = 3;
+            g.mix.compute_remove = 2;
+            g.mix.compute_replace = 1;
+            g.mix.get = 2;
+            g.mix.iter_all = 1;
+            g.swarm = false;
+            g.hashes = vec![HashKind::Identity];
+            g.shapes = vec![Shape::Plain, Shape::Plain, Shape::AtThreshold, Shape::AtThreshold, Shape::Unallocated];
+            g.hot_keys = (2, 8);
+            g.threads = (2, 5);
+            g.allow_set = true;
+        }
         "C14" => {
             g.mix = Mix::zero();
             g.mix.remove = 5;
@@ -600,6 +617,14 @@ pub fn judge(prop: &str, p: &Program, r: &RunResult, opts: &ExecOpts, js: &mut J
         }
         "C14" => {
             out.extend(oracle::no_growth_on_removal(p, r));
+            let g = oracle::growth_justified(p, r);
+            if p.cfg.hash == HashKind::Identity {
+                js.bump("runs_judged_for_justified_growth", 1);
+                if r.outcome.events.iter().any(|e| e.ev == flurry::verif::Ev::ResizeStarted) {
+                    js.bump("runs_judged_for_justified_growth_that_resized", 1);
+                }
+            }
+            out.extend(g);
         }
         "C15" => {
             let mut hs = oracle::HbStats::default();
